@@ -170,6 +170,25 @@ fn explore(ctx: &Ctx) -> Outcome {
             total.absorb(t);
         }
     }
+    // length sweep (text offsets slid across the table offsets) and long multi-byte strings
+    let mut extra = binfam::length_sweep();
+    extra.extend(binfam::multibyte_alignment().into_iter().map(|mut c| {
+        c.cstrings.clear();
+        c
+    }));
+    let t = extra
+        .par_iter()
+        .fold(Tally::new, |mut t, c| {
+            t.cases += 1;
+            t.nontrivial += 1;
+            if let Some((sig, summary)) = judge(c, &mut t, 4, 2, 1) {
+                t.violate(sig, summary.chars().take(500).collect::<String>(), binfam::describe(c));
+            }
+            t
+        })
+        .reduce(Tally::new, Tally::merge);
+    layers.push(json!({"family": "length sweep (names/strings of length 0..=48, shared or not) + long multi-byte strings", "contents": extra.len(), "completed": true}));
+    total.absorb(t);
     // large archives (tables and text beyond 64 KiB)
     for c in binfam::big_cases() {
         let mut t = Tally::new();
